@@ -249,15 +249,17 @@ def _gen_op(rng, kind, spec, cfg, tabs):
         if kind == 'list_outputs':
             op['flags']['explicit'] = rng.random() < 0.85
             op['flags']['implicit'] = rng.random() < 0.85
-        if kind != 'list_inputs' and rng.random() < 0.3:
+        # (residuals_tol with a string-valued discrete output raises ValueError - not a C31 matter)
+        if kind != 'list_inputs' and rng.random() < 0.3 and not cfg['discrete']:
             op['flags']['residuals_tol'] = rng.choice([1e-12, 1e-3, 10.0])
-        for nm in ('is_indep_var', 'is_design_var'):
-            if rng.random() < 0.2:
-                op['flags'][nm] = rng.random() < 0.5
         op['return_format'] = rng.choice(['list', 'dict'])
         paths = [''] + sorted(set(v['abs'].rsplit('.', 1)[0] for v in outs if v['kind'] != 'ivc'))
         groups = sorted(set(p.rsplit('.', 1)[0] for p in paths if '.' in p))
         op['system'] = rng.choice(paths + groups) if rng.random() < 0.4 else ''
+        # (is_indep_var / is_design_var on a subsystem whose sources live outside it raise KeyError - not C31)
+        for nm in ('is_indep_var', 'is_design_var'):
+            if rng.random() < 0.2 and op['system'] == '':
+                op['flags'][nm] = rng.random() < 0.5
     elif kind == 'get_val':
         pool = [('out', v) for v in outs] + [('in', v) for v in ins] + [('out', v) for v in params]
         io_, v = rng.choice(pool)
@@ -319,8 +321,7 @@ def make_plan(seed):
            'fac': rng.random() < 0.5,
            'coloring': rng.random() < 0.35,
            'discrete': rng.random() < 0.6 and spec['tree']['nl']['type'] not in ('newton', 'broyden'),
-           'approx_totals': None,
-           'directional_partials': rng.random() < 0.12}
+           'approx_totals': None}
     # root approx_totals (model-level fd/cs); full-model Broyden/Newton at the root would then approximate the
     # root jacobian inside every nonlinear iteration, which is legal but slow - keep it to run-once/GS roots
     if rng.random() < 0.18 and spec['tree']['nl']['type'] in ('runonce', 'nlbgs', 'nlbj'):
@@ -465,6 +466,49 @@ def _maxdiff(a, b):
         return '?'
 
 
+EPS = 2.220446049250313e-16
+
+
+def _classify_change(model, which, a, b, stale):
+    """Mechanism tag for a bitwise change of a nonlinear vector across a query call ('' = not identified).
+    Only used to give DIAGNOSED round-off mechanisms their own key; anything that does not fit the narrow
+    description keeps the generic key.
+
+    scaling-roundtrip : every changed entry belongs to a variable with solver scaling (ref/ref0) and moved by no more
+        than the round-off of the map phys -> (y-ref0)/(ref-ref0) -> phys, which every API entry point applies to
+        the whole vector (System._scaled_context_all).
+    stale-explicit-apply-roundoff : the outputs hold a user-set value that is not the component's own result
+        (set_val without run_model) and moved by round-off only: ExplicitComponent._apply_nonlinear restores the
+        outputs as y_new - (y_new - y_old).
+    """
+    if which not in ('inputs', 'outputs') or a.shape != b.shape:
+        return ''
+    idx = np.nonzero(a != b)[0]
+    if idx.size == 0 or not (np.all(np.isfinite(a[idx])) and np.all(np.isfinite(b[idx]))):
+        return ''
+    d = np.abs(a[idx] - b[idx])
+    vec = model._outputs if which == 'outputs' else model._inputs
+    sc = vec._scaling
+    if sc is not None:
+        scaler, adder = sc
+        adder = np.zeros(a.size) if adder is None else np.asarray(adder, dtype=float)
+        scaler = np.broadcast_to(np.asarray(scaler, dtype=float), a.shape)
+        scaled = (scaler[idx] != 1.0) | (adder[idx] != 0.0)
+        small = d <= 32 * EPS * (np.abs(a[idx]) + np.abs(b[idx]) + np.abs(adder[idx]))
+        if np.all(scaled & small):
+            return 'scaling-roundtrip'
+    if stale and which == 'outputs':
+        if np.all(d <= 64 * EPS * max(1.0, float(np.max(np.abs(a))), float(np.max(np.abs(b))))):
+            return 'stale-explicit-apply-roundoff'
+    return ''
+
+
+def _zero_linear(model):
+    model._doutputs.set_val(0.0)
+    model._dresiduals.set_val(0.0)
+    model._dinputs.set_val(0.0)
+
+
 class Snap:
     def __init__(self, model):
         from omv.gen.c31_kit import discrete_snapshot
@@ -508,8 +552,6 @@ def _build(plan):
     from omv.gen import models as G
     spec, cfg = plan['spec'], plan['cfg']
     sp = copy.deepcopy(spec)
-    if cfg['directional_partials']:
-        pass
     prob = G.build(sp)
     model = prob.model
     if cfg['discrete']:
@@ -536,14 +578,6 @@ def _build(plan):
     if cfg['approx_totals']:
         model.approx_totals(**cfg['approx_totals'])
     prob.setup(mode=cfg['mode'], force_alloc_complex=cfg['fac'])
-    if cfg['directional_partials']:
-        import openmdao.api as om
-        k = 0
-        for s in model.system_iter(typ=om.ExplicitComponent, recurse=True):
-            if hasattr(s, '_omv_cs'):
-                k += 1
-                if k % 2 == 1:
-                    s.set_check_partial_options(wrt='*', directional=True)
     return prob
 
 
@@ -604,10 +638,7 @@ def _query(prob, op, plan):
             kw.update(form=op['form'], step_calc=op['step_calc'])
         if op.get('includes'):
             kw['includes'] = op['includes']
-        d = prob.check_partials(**kw)
-        if cfg['directional_partials']:
-            return None
-        return _check_data(d)
+        return _check_data(prob.check_partials(**kw))
     if k == 'check_totals':
         kw = dict(out_stream=stream, compact_print=op['compact_print'], method=op['method'],
                   driver_scaling=op['driver_scaling'], directional=op['directional'])
@@ -696,6 +727,7 @@ class HistoryRun:
         self.exc = []           # (key, what, op index)
         self.counts = {}
         self.first = None
+        self.changed_at = set()     # query steps that changed a vector
 
     def count(self, k):
         self.counts[k] = self.counts.get(k, 0) + 1
@@ -707,7 +739,7 @@ class HistoryRun:
             kw['units'] = op['units']
         prob.set_val(op['name'], val, **kw)
 
-    def run(self, include=None):
+    def run(self, include=None, zero_lin_after=()):
         plan = self.plan
         cfg = plan['cfg']
         from omv.gen.c31_kit import discrete_restore
@@ -738,23 +770,36 @@ class HistoryRun:
                         self.results[i] = Snap(model).as_result()
                     elif k == 'rerun':
                         s0 = Snap(model)
+
+                        def again(zero):
+                            model._inputs.set_val(s0.inputs)
+                            model._outputs.set_val(s0.outputs)
+                            discrete_restore(model, s0.discrete)
+                            if Snap(model).diff(s0):
+                                raise RuntimeError('harness: state could not be restored')
+                            if zero:
+                                _zero_linear(model)
+                            prob.run_model()
+                            return Snap(model)
                         prob.run_model()
                         o1 = Snap(model)
-                        model._inputs.set_val(s0.inputs)
-                        model._outputs.set_val(s0.outputs)
-                        discrete_restore(model, s0.discrete)
-                        chk = Snap(model)
-                        if chk.diff(s0):
-                            raise RuntimeError('harness: state could not be restored')
-                        prob.run_model()
-                        o2 = Snap(model)
+                        o2 = again(False)
                         stale = False
                         self.count('obs:rerun')
-                        for which, txt in o1.diff(o2):
-                            self.ro_viol.append(('run_model-twice:%s-differ:nl=%s' % (which, '+'.join(
-                                n for n in plan['nls'] if n != 'runonce') or 'runonce'),
-                                'second run_model from the restored state: ' + txt, i))
-                        self.results[i] = o2.as_result()
+                        df = o1.diff(o2)
+                        if df:
+                            # diagnosis by intervention: does the difference vanish when the LINEAR vectors (left over
+                            # from the previous solve, used as initial guess by iterative linear solvers) are zeroed?
+                            o3 = again(True)
+                            o4 = again(True)
+                            nls = '+'.join(n for n in plan['nls'] if n != 'runonce') or 'runonce'
+                            for which, txt in df:
+                                if not o3.diff(o4):
+                                    key = 'leftover-linear-vectors:run_model-twice:%s-differ' % which
+                                else:
+                                    key = 'run_model-twice:%s-differ:nl=%s' % (which, nls)
+                                self.ro_viol.append((key, 'second run_model from the restored state: ' + txt, i))
+                        self.results[i] = Snap(model).as_result()
                     else:
                         lab = _label(op, cfg)
                         before = Snap(model)
@@ -773,10 +818,18 @@ class HistoryRun:
                         if before.discrete:
                             self.count('obs:discrete-snapshots')
                         for which, txt in before.diff(after):
-                            self.ro_viol.append(('%s:%s-changed%s' % (lab, which, ':stale-model' if stale else ''),
-                                                 '%s changed across %s: %s' % (which, lab, txt), i))
+                            mech = _classify_change(model, which, getattr(before, which, None),
+                                                    getattr(after, which, None), stale)
+                            if mech:
+                                key = '%s:%s-changed:%s' % (mech, which, lab)
+                            else:
+                                key = '%s:%s-changed%s' % (lab, which, ':stale-model' if stale else '')
+                            self.ro_viol.append((key, '%s changed across %s: %s' % (which, lab, txt), i))
+                            self.changed_at.add(i)
+                        if i in zero_lin_after:
+                            _zero_linear(model)
                         if op.get('keep'):
-                            self.results[i] = res
+                            self.results[i] = copy.deepcopy(res)
         finally:
             try:
                 prob.cleanup()
@@ -858,10 +911,14 @@ def run_case(case, acc):
                 acc.count('obs:hidden-probe:%s' % ('run_model' if op['op'] in ('run_model', 'rerun') else op['op']))
             if bad:
                 i0, lab0, txt0 = bad[0]
-                culprit = _find_culprit(plan, keep, a_only, i0, ra, a_only_before)
-                viols.append(('hidden-state:%s:%s' % (culprit, lab0),
-                              'result of step %d (%s) depends on query calls made before it (%s): %s' %
-                              (i0, lab0, culprit, txt0)))
+                if any(j < i0 and j in ra.changed_at for j in a_only):
+                    # a query call of history A changed a vector (reported above): later differences follow from it
+                    acc.count('obs:hidden-state-explained-by-vector-change')
+                else:
+                    culprit = _find_culprit(plan, keep, a_only, i0, a_only_before)
+                    viols.append(('hidden-state:%s:%s' % (culprit, lab0),
+                                  'result of step %d (%s) depends on query calls made before it (%s): %s' %
+                                  (i0, lab0, culprit, txt0)))
         failed = len(fmon.failures)
     if failed:
         acc.count('obs:solver-failure-reported')
@@ -910,22 +967,28 @@ def run_case(case, acc):
                    'coloring': cfg['coloring'], 'approx_totals': cfg['approx_totals'], 'history': kinds})
 
 
-def _find_culprit(plan, keep, a_only, i0, ra, a_only_before):
-    """which single query call (made only in history A, before step i0) reproduces the discrepancy at step i0?"""
+def _find_culprit(plan, keep, a_only, i0, a_only_before):
+    """which single query call (made only in history A, before step i0) reproduces the discrepancy at step i0?
+    Diagnosis by intervention: if zeroing the LINEAR vectors right after that call removes the discrepancy, the
+    mechanism is the left-over content of the linear vectors (initial guess of iterative linear solvers)."""
     cfg = plan['cfg']
+    hist = plan['hist']
     cands = [j for j in a_only if j < i0]
-    ref = None
     try:
+        ref = HistoryRun(plan).run(include=set(keep))
         for j in cands:
+            def aob(i, fn, j=j):
+                return hist[j]['op'] == 'coloring' and hist[j].get('fn') == fn and j < i
             r1 = HistoryRun(plan).run(include=set(keep) | {j})
             if r1.exc or i0 not in r1.results:
                 continue
-            if ref is None:
-                ref = HistoryRun(plan).run(include=set(keep))
-            only = _compare(plan, r1, ref, lambda i, fn: plan['hist'][j]['op'] == 'coloring' and
-                            plan['hist'][j].get('fn') == fn and j < i)
-            if any(i == i0 for i, _, _ in only):
-                return _label(plan['hist'][j], cfg)
+            if any(i == i0 for i, _, _ in _compare(plan, r1, ref, aob)):
+                r2 = HistoryRun(plan).run(include=set(keep) | {j}, zero_lin_after={j})
+                if not r2.exc and not any(i == i0 for i, _, _ in _compare(plan, r2, ref, aob)):
+                    return 'leftover-linear-vectors:' + _label(hist[j], cfg)
+                return _label(hist[j], cfg)
     except Exception:
-        pass
+        if os.environ.get('OMV_DEBUG'):
+            import traceback
+            traceback.print_exc()
     return 'several-calls'
